@@ -36,6 +36,7 @@ mod zset_container;
 mod ckpt_recovery;
 mod compaction;
 mod sync_exchange;
+mod gossip_loop;
 use std::panic;
 
 pub struct Found {
@@ -109,6 +110,7 @@ fn main() {
         "ckpt_recovery" => ckpt_recovery::search(&pid, &oid, seed),
         "compaction" => compaction::search(&pid, &oid, seed),
         "sync_exchange" => sync_exchange::search(&pid, &oid, seed),
+        "gossip_loop" => gossip_loop::search(&pid, &oid, seed),
         _ => None,
     };
     match res {
